@@ -5,7 +5,7 @@ from .. import core, gen
 from . import vcdfam
 
 PID = "C16"
-LEVEL = "translation_validation"
+LEVEL = "proof"
 RULE = ("byte strings are offered to viewers::open_and_detect_file_format under a watchdog: exhaustively every string of "
         "length <= 2, every first byte x corner values of the 8-byte block length field, `$`+word forms, truncated and "
         "corrupted magic numbers of the three formats, valid headers followed by garbage, generated VCD files and every "
